@@ -390,3 +390,6 @@ fn c19_k_min_polygon_map() {
     while i < 4 { assert!(r.exterior().0[i] == f(want[i]) && r.interiors()[0].0[i] == f(want[4 + i])); i += 1; }
 }
 
+
+// (GeometryCollection::bounding_rect cannot be checked modularly either: Kani 0.68 rejects `#[kani::stub(<Geometry<i32> as
+//  BoundingRect<i32>>::bounding_rect, model)]` -- "does not currently support stubs or function contracts on generic functions in traits")
